@@ -384,12 +384,6 @@ package base
 //@   loop 0 invariant prog: it != nil && fin == 0 && iters == bodyrun && iters + gget(itrem, it) == n0 && gget(itpos, it) == iters && 0 <= iters && gget(itrem, it) >= 0
 //@   loop 0 decreases gget(itrem, it)
 
-//@ func (*ConcStatement).Evaluate
-//@   props C18
-//@   ensures true
-//@   modifies frame evalframe
-//@   trusted conc contract pending
-
 //@ func (*FunctionCall).Evaluate$1
 //@   props C09 C20
 //@   recoverer
@@ -497,3 +491,196 @@ package base
 //@   ensures result.1 == nil ==> len(result.0) == len(as.ArgList)
 //@   modifies frame evalframe
 //@   trusted argument list contract pending
+
+// ---------------------------------------------------------------------------
+// conc { ... } (C18): Add(total) ; four spawners fork one task per statement ; each task evaluates its statement
+// once, logs the error under errLock, Done last ; Wait ; error iff some task failed.
+
+//@ func (*ConcStatement).Evaluate$1$1
+//@   props C18 C09
+//@   task joins wg
+//@   entry nolocks
+//@   requires assignment != nil
+//@   ghost ran int = 0
+//@   ghost tfailed bool = false
+//@   ghost donecnt int = 0
+//@   oncall (*Assignment).Evaluate
+//@     assert [C18] once: ran == 0 && recv == assignment && donecnt == 0
+//@     after ran := ran + 1
+//@     after tfailed := callresult.1 != nil
+//@   oncall (*sync.WaitGroup).Done
+//@     assert [C18,C09] donelast: recv == wg && ran == 1 && donecnt == 0
+//@     after donecnt := 1
+//@   ensures [C18] ranonce: ran == 1 && donecnt == 1
+//@   ensures [C18] errlogged: len(eMsg) == old(len(eMsg)) + ite(tfailed, 1, 0)
+//@   ensures isnil(eMsg) || arr(eMsg) == old(arr(eMsg)) || fresh(arr(eMsg))
+//@   modifies frame evalframe, eMsg, elems(eMsg)
+//@   nopanic
+
+//@ func (*ConcStatement).Evaluate$1
+//@   props C18 C09
+//@   task
+//@   entry nolocks
+//@   requires cs != nil
+//@   assume forall qi :: lo(cs.Assignments) <= qi && qi < hi(cs.Assignments) ==> at(cs.Assignments, qi) != nil
+//@   ghost anyfail bool = false
+//@   ghost e0 int = len(eMsg)
+//@   ghost f0 int = forked(wg)
+//@   oncall go $1
+//@     assert [C18] each: 0 <= rangeindex + 1 && rangeindex + 1 < len(cs.Assignments) && b_assignment == cs.Assignments[rangeindex + 1]
+//@     after anyfail := anyfail || t_tfailed
+//@   ensures [C18] forkedall: forked(wg) == f0 + len(cs.Assignments)
+//@   ensures [C18] errs: (len(eMsg) > e0 <==> anyfail) && len(eMsg) >= e0
+//@   ensures isnil(eMsg) || arr(eMsg) == old(arr(eMsg)) || fresh(arr(eMsg))
+//@   modifies frame evalframe, eMsg, elems(eMsg), gset(wg_forked, wg)
+//@   loopwrites Vars, arr(eMsg)
+//@   nopanic
+//@   loop 0 invariant forks: forked(wg) == f0 + rangeindex + 1 && -1 <= rangeindex && rangeindex < len(cs.Assignments)
+//@   loop 0 invariant errs: (len(eMsg) > e0 <==> anyfail) && len(eMsg) >= e0 && (isnil(eMsg) || arr(eMsg) == old(arr(eMsg)) || fresh(arr(eMsg)))
+//@   loop 0 decreases len(cs.Assignments) - rangeindex
+
+//@ func (*ConcStatement).Evaluate$2$1
+//@   props C18 C09
+//@   task joins wg
+//@   entry nolocks
+//@   requires fun != nil
+//@   ghost ran int = 0
+//@   ghost tfailed bool = false
+//@   ghost donecnt int = 0
+//@   oncall (*FunctionCall).Evaluate
+//@     assert [C18] once: ran == 0 && recv == fun && donecnt == 0
+//@     after ran := ran + 1
+//@     after tfailed := callresult.1 != nil
+//@   oncall (*sync.WaitGroup).Done
+//@     assert [C18,C09] donelast: recv == wg && ran == 1 && donecnt == 0
+//@     after donecnt := 1
+//@   ensures [C18] ranonce: ran == 1 && donecnt == 1
+//@   ensures [C18] errlogged: len(eMsg) == old(len(eMsg)) + ite(tfailed, 1, 0)
+//@   ensures isnil(eMsg) || arr(eMsg) == old(arr(eMsg)) || fresh(arr(eMsg))
+//@   modifies frame evalframe, eMsg, elems(eMsg)
+//@   nopanic
+
+//@ func (*ConcStatement).Evaluate$2
+//@   props C18 C09
+//@   task
+//@   entry nolocks
+//@   requires cs != nil
+//@   assume forall qi :: lo(cs.FunctionCalls) <= qi && qi < hi(cs.FunctionCalls) ==> at(cs.FunctionCalls, qi) != nil
+//@   ghost anyfail bool = false
+//@   ghost e0 int = len(eMsg)
+//@   ghost f0 int = forked(wg)
+//@   oncall go $1
+//@     assert [C18] each: 0 <= rangeindex + 1 && rangeindex + 1 < len(cs.FunctionCalls) && b_fun == cs.FunctionCalls[rangeindex + 1]
+//@     after anyfail := anyfail || t_tfailed
+//@   ensures [C18] forkedall: forked(wg) == f0 + len(cs.FunctionCalls)
+//@   ensures [C18] errs: (len(eMsg) > e0 <==> anyfail) && len(eMsg) >= e0
+//@   ensures isnil(eMsg) || arr(eMsg) == old(arr(eMsg)) || fresh(arr(eMsg))
+//@   modifies frame evalframe, eMsg, elems(eMsg), gset(wg_forked, wg)
+//@   loopwrites Vars, arr(eMsg)
+//@   nopanic
+//@   loop 0 invariant forks: forked(wg) == f0 + rangeindex + 1 && -1 <= rangeindex && rangeindex < len(cs.FunctionCalls)
+//@   loop 0 invariant errs: (len(eMsg) > e0 <==> anyfail) && len(eMsg) >= e0 && (isnil(eMsg) || arr(eMsg) == old(arr(eMsg)) || fresh(arr(eMsg)))
+//@   loop 0 decreases len(cs.FunctionCalls) - rangeindex
+
+//@ func (*ConcStatement).Evaluate$3$1
+//@   props C18 C09
+//@   task joins wg
+//@   entry nolocks
+//@   requires meth != nil
+//@   ghost ran int = 0
+//@   ghost tfailed bool = false
+//@   ghost donecnt int = 0
+//@   oncall (*MethodCall).Evaluate
+//@     assert [C18] once: ran == 0 && recv == meth && donecnt == 0
+//@     after ran := ran + 1
+//@     after tfailed := callresult.1 != nil
+//@   oncall (*sync.WaitGroup).Done
+//@     assert [C18,C09] donelast: recv == wg && ran == 1 && donecnt == 0
+//@     after donecnt := 1
+//@   ensures [C18] ranonce: ran == 1 && donecnt == 1
+//@   ensures [C18] errlogged: len(eMsg) == old(len(eMsg)) + ite(tfailed, 1, 0)
+//@   ensures isnil(eMsg) || arr(eMsg) == old(arr(eMsg)) || fresh(arr(eMsg))
+//@   modifies frame evalframe, eMsg, elems(eMsg)
+//@   nopanic
+
+//@ func (*ConcStatement).Evaluate$3
+//@   props C18 C09
+//@   task
+//@   entry nolocks
+//@   requires cs != nil
+//@   assume forall qi :: lo(cs.MethodCalls) <= qi && qi < hi(cs.MethodCalls) ==> at(cs.MethodCalls, qi) != nil
+//@   ghost anyfail bool = false
+//@   ghost e0 int = len(eMsg)
+//@   ghost f0 int = forked(wg)
+//@   oncall go $1
+//@     assert [C18] each: 0 <= rangeindex + 1 && rangeindex + 1 < len(cs.MethodCalls) && b_meth == cs.MethodCalls[rangeindex + 1]
+//@     after anyfail := anyfail || t_tfailed
+//@   ensures [C18] forkedall: forked(wg) == f0 + len(cs.MethodCalls)
+//@   ensures [C18] errs: (len(eMsg) > e0 <==> anyfail) && len(eMsg) >= e0
+//@   ensures isnil(eMsg) || arr(eMsg) == old(arr(eMsg)) || fresh(arr(eMsg))
+//@   modifies frame evalframe, eMsg, elems(eMsg), gset(wg_forked, wg)
+//@   loopwrites Vars, arr(eMsg)
+//@   nopanic
+//@   loop 0 invariant forks: forked(wg) == f0 + rangeindex + 1 && -1 <= rangeindex && rangeindex < len(cs.MethodCalls)
+//@   loop 0 invariant errs: (len(eMsg) > e0 <==> anyfail) && len(eMsg) >= e0 && (isnil(eMsg) || arr(eMsg) == old(arr(eMsg)) || fresh(arr(eMsg)))
+//@   loop 0 decreases len(cs.MethodCalls) - rangeindex
+
+//@ func (*ConcStatement).Evaluate$4$1
+//@   props C18 C09
+//@   task joins wg
+//@   entry nolocks
+//@   requires tlc != nil
+//@   ghost ran int = 0
+//@   ghost tfailed bool = false
+//@   ghost donecnt int = 0
+//@   oncall (*ThreeLevelCall).Evaluate
+//@     assert [C18] once: ran == 0 && recv == tlc && donecnt == 0
+//@     after ran := ran + 1
+//@     after tfailed := callresult.1 != nil
+//@   oncall (*sync.WaitGroup).Done
+//@     assert [C18,C09] donelast: recv == wg && ran == 1 && donecnt == 0
+//@     after donecnt := 1
+//@   ensures [C18] ranonce: ran == 1 && donecnt == 1
+//@   ensures [C18] errlogged: len(eMsg) == old(len(eMsg)) + ite(tfailed, 1, 0)
+//@   ensures isnil(eMsg) || arr(eMsg) == old(arr(eMsg)) || fresh(arr(eMsg))
+//@   modifies frame evalframe, eMsg, elems(eMsg)
+//@   nopanic
+
+//@ func (*ConcStatement).Evaluate$4
+//@   props C18 C09
+//@   task
+//@   entry nolocks
+//@   requires cs != nil
+//@   assume forall qi :: lo(cs.ThreeLevelCalls) <= qi && qi < hi(cs.ThreeLevelCalls) ==> at(cs.ThreeLevelCalls, qi) != nil
+//@   ghost anyfail bool = false
+//@   ghost e0 int = len(eMsg)
+//@   ghost f0 int = forked(wg)
+//@   oncall go $1
+//@     assert [C18] each: 0 <= rangeindex + 1 && rangeindex + 1 < len(cs.ThreeLevelCalls) && b_tlc == cs.ThreeLevelCalls[rangeindex + 1]
+//@     after anyfail := anyfail || t_tfailed
+//@   ensures [C18] forkedall: forked(wg) == f0 + len(cs.ThreeLevelCalls)
+//@   ensures [C18] errs: (len(eMsg) > e0 <==> anyfail) && len(eMsg) >= e0
+//@   ensures isnil(eMsg) || arr(eMsg) == old(arr(eMsg)) || fresh(arr(eMsg))
+//@   modifies frame evalframe, eMsg, elems(eMsg), gset(wg_forked, wg)
+//@   loopwrites Vars, arr(eMsg)
+//@   nopanic
+//@   loop 0 invariant forks: forked(wg) == f0 + rangeindex + 1 && -1 <= rangeindex && rangeindex < len(cs.ThreeLevelCalls)
+//@   loop 0 invariant errs: (len(eMsg) > e0 <==> anyfail) && len(eMsg) >= e0 && (isnil(eMsg) || arr(eMsg) == old(arr(eMsg)) || fresh(arr(eMsg)))
+//@   loop 0 decreases len(cs.ThreeLevelCalls) - rangeindex
+
+//@ func (*ConcStatement).Evaluate
+//@   props C18 C09
+//@   requires cs != nil
+//@   ghost anyfail bool = false
+//@   oncall go $1
+//@     after anyfail := anyfail || t_anyfail
+//@   oncall go $2
+//@     after anyfail := anyfail || t_anyfail
+//@   oncall go $3
+//@     after anyfail := anyfail || t_anyfail
+//@   oncall go $4
+//@     after anyfail := anyfail || t_anyfail
+//@   ensures [C18] errpolicy: (result.1 != nil) <==> anyfail
+//@   ensures [C18] nothing: len(cs.Assignments) + len(cs.FunctionCalls) + len(cs.MethodCalls) + len(cs.ThreeLevelCalls) == 0 ==> result.1 == nil && !anyfail
+//@   modifies frame evalframe
+//@   nopanic
